@@ -69,8 +69,8 @@ MinDepthTab == [k \in Kinds |-> CHOOSE n \in 0..8 : k \in ReachTab[n] /\ (n = 0 
 CanaryRules == {"ref_ok", "ref_sibling", "ref_ext_sibling", "unresolved", "extra_field",
                 "default_mismatch", "example_mismatch", "in_invalid", "bad_style", "description_missing",
                 "content_missing", "responses_missing", "value_missing", "operation_missing", "url_missing",
-                "default_missing", "dup_param", "examples_mismatch"}
-CanaryVars == {"min", "ref", "external", "bogus", "number", "body", "form", "simple", "absent", "twice", "query_simple"}
+                "default_missing", "dup_param", "examples_mismatch", "value_and_external"}
+CanaryVars == {"min", "ref", "external", "bogus", "number", "body", "form", "simple", "absent", "twice", "query_simple", "both"}
 Canary(lf) == (lf.rule \in CanaryRules \cup {"none"}) /\ lf.var \in CanaryVars
 
 (* context-dependent leaves *)
